@@ -1,4 +1,6 @@
 SPECIFICATION TraceSpec
-CONSTANT MaxOps = 3
+CONSTANTS
+ MaxOps = 3
+ Sweep = FALSE
 POSTCONDITION TraceAccepted
 CHECK_DEADLOCK FALSE
